@@ -20,11 +20,20 @@
      * lambda (run-and-wait) is not a step of the theorem (its parts are create and remove; C30).
    The per-operation theorems below are the same statement one operation at a time (C10_step); C10_create_capacity
    adds usage <= capacity for create; C10_fault_addresses: every fault address (method, target, ordinal) of the
-   harness is one of the positions k.  Operations of a history run one after the other; concurrency: see C10.json. *)
+   harness is one of the positions k.
+   CONCURRENCY (C10_interleaving, C10_orders_agree, C10_inplace_ops_interleave): operations of a history run one
+   after the other; two operations interleaved at call granularity (run2: a schedule says whose call is next, each
+   operation has its own fault position) give EXACTLY the result of the sequential history whenever their calls
+   lie in classes that commute pairwise; this is proved for the operations that update records in place (realloc,
+   set-node) on disjoint footprints (workload ids, node names).  Operations that append (create, the rollbacks of
+   remove/replace, every message) commute only up to the order of the appended elements: not proved; the harness
+   drives concurrent pairs of realloc/dissociate/remove/set-node through a call-by-call gate and compares with
+   the sequential model. *)
 From Coq Require Import List Bool Arith ZArith.
 From Verif Require Import Base.Effects Calcium.World Calcium.Ops Calcium.Run Calcium.EffectsProofs
   Calcium.OpsProofs Calcium.OpsProofs2 Calcium.InvProofs Calcium.Sweeps Calcium.DeployProofs Calcium.DeployProofs2
-  Calcium.CreateProofs Calcium.CreateProofs2 Calcium.NodeProofs Calcium.CapProofs Calcium.HistoryProofs Calcium.Examples.
+  Calcium.CreateProofs Calcium.CreateProofs2 Calcium.NodeProofs Calcium.CapProofs Calcium.HistoryProofs
+  Calcium.Interleave Calcium.InterleaveOps Calcium.Examples.
 
 (* ---- the theorem over histories ---- *)
 Theorem C10_history : forall (h : list (op * option nat)) w, Inv w -> valid_hist w h -> Inv (run_hist w h).
@@ -69,6 +78,44 @@ Theorem C10_history_instance : Inv busy3v /\ valid_hist busy3v history_example /
   /\ valid_hist busy3v history_example2.
 Proof. exact (conj busy3_Inv (conj history_example_valid (conj history_example_Inv history_example2_valid))). Qed.
 Print Assumptions C10_history_instance.
+
+(* ---- two operations interleaved at call granularity ---- *)
+Theorem C10_interleaving : forall (P1 P2 : call -> Prop) (I : world -> Prop),
+  (forall c w, P1 c -> I w -> I (fst (exec w c))) ->
+  (forall c w, P2 c -> I w -> I (fst (exec w c))) ->
+  (forall c1 c2 w, P1 c1 -> P2 c2 -> I w ->
+    fst (exec (fst (exec w c1)) c2) = fst (exec (fst (exec w c2)) c1) /\
+    snd (exec (fst (exec w c1)) c2) = snd (exec w c2) /\
+    snd (exec (fst (exec w c2)) c1) = snd (exec w c1)) ->
+  forall A B sched (p1 : cprog A) (p2 : cprog B) k1 k2 w,
+    I w -> safe P1 I p1 -> safe P2 I p2 ->
+    run2 sched p1 k1 p2 k2 w = run2 nil p1 k1 p2 k2 w.
+Proof. exact interleave_is_sequential. Qed.
+Print Assumptions C10_interleaving.
+
+Theorem C10_inplace_ops_interleave : forall F1 F2 o1 o2 w, disjoint F1 F2 -> ip_in F1 o1 -> ip_in F2 o2 ->
+  fp_inv F1 w -> fp_inv F2 w ->
+  (forall sched k1 k2, run2 sched (ip_script o1) k1 (ip_script o2) k2 w = run2 nil (ip_script o1) k1 (ip_script o2) k2 w) /\
+  (forall k1 k2, run2 nil (ip_script o1) k1 (ip_script o2) k2 w =
+                 (let '(w', b, a) := run2 nil (ip_script o2) k2 (ip_script o1) k1 w in (w', a, b))).
+Proof. exact inplace_ops_interleave. Qed.
+Print Assumptions C10_inplace_ops_interleave.
+
+(* the calls of two disjoint footprints commute: same world, same replies, whichever goes first *)
+Theorem C10_calls_commute : forall F1 F2 c1 c2 w, disjoint F1 F2 -> in_fp F1 c1 -> in_fp F2 c2 ->
+  fst (exec (fst (exec w c1)) c2) = fst (exec (fst (exec w c2)) c1) /\
+  snd (exec (fst (exec w c1)) c2) = snd (exec w c2) /\
+  snd (exec (fst (exec w c2)) c1) = snd (exec w c1).
+Proof. exact fp_calls_commute. Qed.
+Print Assumptions C10_calls_commute.
+
+Theorem C10_realloc_pair : forall id1 id2 n1 n2 req1 req2 w, id1 <> id2 -> n1 <> n2 ->
+  (forall x, In x (wls w) -> w_id x = id1 -> w_node x = n1) ->
+  (forall x, In x (wls w) -> w_id x = id2 -> w_node x = n2) ->
+  forall sched k1 k2,
+    run2 sched (realloc id1 req1) k1 (realloc id2 req2) k2 w = run2 nil (realloc id1 req1) k1 (realloc id2 req2) k2 w.
+Proof. exact realloc_pair_interleave. Qed.
+Print Assumptions C10_realloc_pair.
 
 (* ---- the blocks, as in round 1 ---- *)
 Theorem C10_realloc : forall id req w k, wf w -> use_ok w ->
